@@ -1,4 +1,5 @@
 import CircusProofs.Props.C10
+import CircusProofs.Core.StopRunE
 /-!
 # C10 — operations that FAIL part-way: a worker the daemon is not permitted to signal (EPERM)
 
@@ -15,6 +16,10 @@ rm, quit, decr, reload, kill …) fails part-way.  C10: "when the operation in f
   `gen.multi` (the body of `Arbiter._stop_watchers`, `kill_processes`, `manage_watchers`) ends only when its **last**
   child has ended, also when an earlier child failed — the failure is then its result.  So a multi-watcher stop in
   which one `_stop` fails at once keeps the exclusive slot until the slowest `_stop` has ended (`c10fStop`: evaluated).
+* `C10_failed_stop_frees_slot` (run level, Core/StopRunE.lean: symbolic execution of the whole request step, any
+  number of workers): the `stop` of a watcher whose workers the daemon may not signal fails inside the request step —
+  slot free, nothing in flight, one reply, the watcher left `stopping` with its workers — and every operation that
+  arrives next is accepted.
 * Two histories in which the unchanged code does stay wedged, by evaluation — findings, replayed on the real code
   by the harness (corpus/C10): `C10_counterexample_failed_restart_wedges` (a failed arbiter `restart` leaves
   `_restarting` set: every later request, the periodic check and `quit` — also by SIGTERM — are refused with "arbiter
@@ -92,6 +97,106 @@ example := C10_multi_failure_is_reported 3 [(0, .exc (.other "AccessDenied")), (
 example : (match multiResult 3 [(1, .unit), (0, .exc (.other "AccessDenied")), (2, .unit)] with
     | .exc (.other "AccessDenied") => true | _ => false) = true := by decide +kernel
 
+/-! ### a `stop` that fails part-way frees the slot within its own step -/
+
+/-- **a failed `stop` gives the slot back, gets its one reply, and the next state-changing request is accepted.**
+
+    Setting: nothing in flight (`Idle u s`); one watcher object `w` (identity `u`), active, without hooks,
+    `stop_children = false`, stop signal not SIGKILL, listing `m ≥ 1` pids; every listed worker runs, its
+    `Process` object is not marked `stopping`, and **the daemon is not permitted to signal it** (`Unsignalable u w s`:
+    it runs under another uid — `os.kill` raises EPERM, psutil reports `AccessDenied`, which no `except` clause on the
+    stop path catches); the kernel is calm (nothing armed or due).  The request is `stop` for that watcher by name
+    (`match: simple`), `waiting` or not.
+
+    Claim, for the state right after the request step (no timer firing is needed): the exclusive slot is free and the
+    arbiter is not restarting; no coroutine frame, no timer, no pending future, no queued callback is left — the
+    operation has ended; the watcher is left `stopping` with its `m` workers still listed, the kernel's process table is
+    untouched (nobody was signalled successfully, nobody died), no SIGKILL was sent; exactly one reply was written (if
+    the control socket is open: the error reply, errno 6, of a `waiting` request, or the `ok` a non-waiting request gets
+    at once — C06); and **every** state-changing operation that arrives now is accepted: `util.synchronized` takes the
+    slot for it (C10: "when the operation in flight ends … with an error … the next state-changing request is accepted
+    again"). -/
+theorem C10_failed_stop_frees_slot (cid name : String) (waiting : Bool) (u : Nat) (w : Watcher) (s : State)
+    (hi : Idle u s) (hd : Unsignalable u w s) (hn : s.a.names.lookup (pyLower name) = some u) (hne : w.pids ≠ []) :
+    let s' := step s (.req cid (some (stopReq name waiting)))
+    s'.a.slot = none ∧ s'.a.restarting = false ∧
+    s'.frames = [] ∧ s'.sleepers = [] ∧ s'.tops = [] ∧ s'.ready = [] ∧ s'.blocked = false ∧
+    s'.ws = [{ w with status := .stopping }] ∧ s'.k.procs = s.k.procs ∧ s'.objs = s.objs ∧
+    killCount s'.log = killCount s.log ∧
+    repC s'.log = repC s.log + (if s.a.ctlClosed = false then 1 else 0) ∧
+    (∀ (opname : String) (c : Call), ∃ tid, (syncCoroutine opname c [] s').1 = .ok tid) := by
+  intro s'
+  have h := stop_run_unsignalable cid name waiting u w s hi hd hn hne
+  have harb : s'.a = { s.a with slot := none } := h.arb
+  have hslot : s'.a.slot = none := by rw [harb]
+  have hrs : s'.a.restarting = false := by rw [harb]; exact hi.restarting
+  exact ⟨hslot, hrs, h.frames, h.sleepers, h.tops, h.ready, h.blocked, h.ws, h.procs, h.objs, h.kills, h.reps,
+    fun opname c => C10_accepted_takes_slot opname c s' hrs hslot⟩
+
+/-! non-vacuity: two workers the daemon may not signal -/
+
+def c10fCfg : List Watcher := [{ name := "a", np := 2, status := .active, graceful := 150 }]
+def c10fU : State := run (initState c10fCfg [{ eperm := true }] 0) [.check, .wake, .wake]
+def c10fW : Watcher := c10fU.ws.headD default
+
+theorem c10fU_ws : c10fU.ws = [c10fW] := by
+  have h : c10fU.ws.length = 1 := by decide +kernel
+  unfold c10fW
+  match hh : c10fU.ws, h with
+  | [x], _ => rfl
+
+theorem c10fU_idle : Idle 1 c10fU := by
+  refine ⟨?_, ?_, ?_, ?_, ?_, ?_, ?_, ?_, ?_⟩
+  · exact List.eq_nil_of_length_eq_zero (by decide +kernel)
+  · exact List.eq_nil_of_length_eq_zero (by decide +kernel)
+  · exact List.eq_nil_of_length_eq_zero (by decide +kernel)
+  · exact List.eq_nil_of_length_eq_zero (by decide +kernel)
+  all_goals decide +kernel
+
+theorem unsig_of_dec (k : Kernel) (pid : Nat)
+    (h : (k.find pid).any (fun p => decide (p.st = .run) && p.behav.eperm) = true) : k.Unsig pid := by
+  cases hf : k.find pid with
+  | none => rw [hf] at h; cases h
+  | some p =>
+    rw [hf] at h
+    simp only [Option.any_some, Bool.and_eq_true, decide_eq_true_eq] at h
+    exact ⟨p, hf, h.1, h.2⟩
+
+theorem objE_of_dec (objs : List PObj) (pid : Nat)
+    (h : (objs.find? (fun o => decide (o.pid = pid))).any (fun o => !o.stopping) = true) :
+    ∃ o, objs.find? (fun o => decide (o.pid = pid)) = some o ∧ o.stopping = false := by
+  cases hf : objs.find? (fun o => decide (o.pid = pid)) with
+  | none => rw [hf] at h; cases h
+  | some o =>
+    rw [hf] at h
+    simp only [Option.any_some, Bool.not_eq_true'] at h
+    exact ⟨o, rfl, h⟩
+
+theorem c10fU_unsignalable : Unsignalable 1 c10fW c10fU := by
+  have hp : c10fW.pids = [100, 101] := by decide +kernel
+  refine ⟨c10fU_ws, by decide +kernel, ⟨by decide +kernel, List.eq_nil_of_length_eq_zero (by decide +kernel),
+    by decide +kernel, by decide +kernel⟩, by decide +kernel, ⟨List.eq_nil_of_length_eq_zero (by decide +kernel), ?_⟩,
+    List.eq_nil_of_length_eq_zero (by decide +kernel), ?_⟩
+  · have hnd : ∀ p ∈ c10fU.k.procs, p.doom = none := by decide +kernel
+    intro p hp _ d st hd
+    rw [hnd p hp] at hd; cases hd
+  · intro pid hpid
+    rw [hp] at hpid
+    simp only [List.mem_cons, List.mem_nil_iff, or_false] at hpid
+    rcases hpid with rfl | rfl
+    · exact ⟨unsig_of_dec _ _ (by decide +kernel), objE_of_dec _ _ (by decide +kernel)⟩
+    · exact ⟨unsig_of_dec _ _ (by decide +kernel), objE_of_dec _ _ (by decide +kernel)⟩
+
+example := C10_failed_stop_frees_slot "c" "a" true 1 c10fW c10fU c10fU_idle c10fU_unsignalable (by decide +kernel)
+  (by decide +kernel)
+-- the same step evaluated: two refused signals, the error reply, the slot free, both workers running and listed
+example : ((run c10fU [.req "c" (some (stopReq "a" true))]).log.drop c10fU.log.length).map showObs =
+      ["o sig 100 15 r!", "o sig 101 15 r!", "o rep c n error 6 -"] ∧
+    (run c10fU [.req "c" (some (stopReq "a" true))]).a.slot = none ∧
+    (run c10fU [.req "c" (some (stopReq "a" true))]).ws.map (fun w => (w.pids, w.status)) = [([100, 101], .stopping)] ∧
+    (run c10fU [.req "c" (some (stopReq "a" true))]).k.procs.map (fun p => (p.pid, p.st)) = [(100, .run), (101, .run)] := by
+  decide +kernel
+
 /-! ### evaluated: the history of the seeded change `stop-watchers-loop-instead-of-multi` -/
 
 def c10fReq (cmd : String) (props : List (String × JVal)) : Op :=
@@ -143,6 +248,27 @@ theorem C10_counterexample_failed_restart_wedges :
       snapshot c10fR1 := by
   decide +kernel
 
+/-! the polling loop "another kill_process call is already taking care of this process" has one exit: the flag -/
+
+/-- **a `kill_process` that meets a worker marked `stopping` only waits**: no signal, no hook, a 100 ms timer -/
+theorem C10_kill_waits_while_stopping (rec : Rec) (u p : Nat) (sig gt : Option Nat) (wt : Waiter) (s : State)
+    (hst : (getO p s).1.stopping = true) :
+    killProcess rec u p sig gt wt s = awaitSleep 100 (.killWaitOther p) wt s := by
+  unfold killProcess
+  simp only [bind]
+  have h1 : (getO p (getW u s).snd).fst.stopping = true := hst
+  erw [if_pos h1]
+  rfl
+
+/-- **… and when that timer fires with the flag still set it waits again** — for ever, if the `kill_process` that set
+    the flag is gone (F33): nothing but the end of that coroutine clears `Process.stopping` -/
+theorem C10_kill_wait_reparks_while_stopping (rec : Rec) (p : Nat) (wt : Waiter) (s : State)
+    (hst : (getO p s).1.stopping = true) :
+    runResume rec (.killWaitOther p) .unit wt s = awaitSleep 100 (.killWaitOther p) wt s := by
+  simp only [runResume, bind]
+  erw [if_pos hst]
+  rfl
+
 /-- one watcher whose `before_signal` hook vetoes the stop signal, its worker unsignalable; graceful_timeout 100 ms -/
 def c10fK : State :=
   run (initState [{ name := "alpha", graceful := 100, hooks := [("before_signal", { outs := ["false"], ignore := false })] }]
@@ -172,5 +298,8 @@ theorem C10_counterexample_failed_sigkill_wedges :
     (c10fK2 40).a.slot = some "watcher_stop" ∧ (c10fK2 40).sleepers.length = 1 ∧
     (c10fK2 40).log.length = c10fK1.log.length ∧ (c10fK2 40).k.now = c10fK1.k.now + 4000 := by
   decide +kernel
+
+-- the hypothesis of C10_kill_waits_while_stopping / C10_kill_wait_reparks_while_stopping in the wedged state
+example : (getO 100 c10fK1).1.stopping = true ∧ (getO 100 (c10fK2 40)).1.stopping = true := by decide +kernel
 
 end Circus.Core
